@@ -70,6 +70,8 @@ def expr_src(e):
     if k == "bin":
         return "(%s %s %s)" % (expr_src(e[2]), BINSRC[e[1]], expr_src(e[3]))
     if k == "call":
+        if e[1] in ("pi", "ee", "phi") and not e[2]:
+            return e[1]                      # constants are keywords without an argument list
         return "%s(%s)" % (e[1], ", ".join(expr_src(a) for a in e[2]))
     if k == "fcall":
         return "%s(%s)" % (e[1].lower(), ", ".join(expr_src(a) for a in e[2]))
@@ -252,9 +254,11 @@ class Gen:
 
     EXC = ["E1", "E2", "OUT_OF_RANGE", "DIVIDE_BY_ZERO"]
 
-    def __init__(self, rng, nvars=3, funcs=True, errors=0.08, tables=0.0, errrec=0.0, extras=0.0):
+    def __init__(self, rng, nvars=3, funcs=True, errors=0.08, tables=0.0, errrec=0.0, extras=0.0, mathx=0.0):
         self.r = rng
         self.pextras = extras   # share of boolean expressions that are isnull(<expression of any type>); 0: none
+        self.pmathx = mathx     # share of expressions built from the built-ins of Builtins.evalBuiltinX (num, isnum, bool, typeof, sign,
+                                # floor, ceil, round, max, min, mod, clamp, sqrt, pi/ee/phi); 0: none
         self.perrrec = errrec   # share of string/integer expressions that read the error record (error@1/@2, error@3); 0: none
         self.ptab = tables      # share of statements working on tables (0: none; tables live in the main program only)
         self.tabs_on = False
@@ -291,6 +295,8 @@ class Gen:
             if t == "i" and r.random() < 0.4:
                 return ("member", "count", ("var", tv), [])
             return ("member", "at", ("var", tv), [I(r.choice([0, 0, 1, 1, 2, 3, -1]) if r.random() > self.perr else 9)])
+        if self.pmathx and r.random() < self.pmathx:
+            return self.mathx_expr(t, depth - 1, scope)
         return getattr(self, "expr_" + t)(depth - 1, scope)
 
     def table_stmt(self, depth, scope, inloop, infunc):
@@ -364,6 +370,47 @@ class Gen:
         if t == "b":
             return L(r.choice(["B:1", "B:0"]))
         return S(r.choice(["", "a", "ab", "Hello", " x ", "a,b,c", "ABC", "0x1F", "42", "  7", "é"]))
+
+    def mathx_expr(self, t, d, sc):
+        """an expression of type t whose top is a built-in of evalBuiltinX (type-directed: the static result type is t)"""
+        r = self.r
+        E = lambda ty: self.expr(ty, d, sc)
+        if t == "i":
+            f = r.choice(["sign", "max", "min", "mod", "clamp"])
+            self.count("mathx-" + f)
+            if f == "sign":
+                return ("call", "sign", [E("i")])
+            if f in ("max", "min"):
+                return ("call", f, [E("i"), E("i")])
+            if f == "mod":
+                return ("call", "mod", [E("i"), E("i") if r.random() < self.perr * 3 else I(r.choice([1, 2, 3, 7, -2, -5]))])
+            return ("call", "clamp", [E("i"), I(r.choice([-3, 0, 1])), I(r.choice([1, 5, 100]))])
+        if t == "d":
+            f = r.choice(["num", "floor", "ceil", "round", "sign", "max", "min", "mod", "clamp", "sqrt", "const"])
+            self.count("mathx-" + f)
+            if f == "num":
+                return ("call", "num", [E(r.choice(["i", "d", "b"])) if r.random() > self.perr * 2 else E("s")])
+            if f in ("floor", "ceil", "round", "sign"):
+                return ("call", f, [E("d")])
+            if f in ("max", "min"):
+                a, b = r.choice([("d", "d"), ("d", "i"), ("i", "d")])
+                return ("call", f, [E(a), E(b)])
+            if f == "mod":
+                return ("call", "mod", [E("d"), E("d") if r.random() < self.perr * 3 else L("D:%016x" % dbits(r.choice([2.0, 0.5, -1.5, 3.0])))])
+            if f == "clamp":
+                return ("call", "clamp", [E("d"), L("D:%016x" % dbits(r.choice([-1.0, 0.0, 0.5]))), L("D:%016x" % dbits(r.choice([1.0, 2.5, 100.0])))])
+            if f == "sqrt":
+                x = E("d")
+                return ("call", "sqrt", [("bin", "MUL", x, x)])
+            return ("call", r.choice(["pi", "ee", "phi"]), [])
+        if t == "b":
+            f = r.choice(["isnum", "bool"])
+            self.count("mathx-" + f)
+            if f == "isnum":
+                return ("call", "isnum", [E(r.choice(["s", "s", "i", "d"]))])
+            return ("call", "bool", [E(r.choice(["i", "d", "b"]))])
+        self.count("mathx-typeof")
+        return ("call", "typeof", [E(r.choice("idbs"))])
 
     def expr_i(self, d, sc):
         r = self.r
